@@ -177,9 +177,15 @@ def build_middlewares(specs: List[Dict[str, Any]], tr: Trace) -> List[TaskiqMidd
     out = []
     for mi, hooks in enumerate(specs):
         ns: Dict[str, Any] = {}
+        base_ns: Dict[str, Any] = {}
         for hook, hs in hooks.items():
-            ns[hook] = _mk_hook(hook, mi, bool(hs.get("async")), set(hs.get("fail_on", ())), bool(hs.get("stamp")), tr)
-        out.append(type(f"MW{mi}", (TaskiqMiddleware,), ns)())
+            if hook.startswith("_"):
+                continue
+            f = _mk_hook(hook, mi, bool(hs.get("async")), set(hs.get("fail_on", ())), bool(hs.get("stamp")), tr)
+            # "inherited": the hook is defined on an intermediate middleware class, the registered class only inherits it
+            (base_ns if hs.get("inherited") else ns)[hook] = f
+        base = type(f"MWBase{mi}", (TaskiqMiddleware,), base_ns) if base_ns else TaskiqMiddleware
+        out.append(type(f"MW{mi}", (base,), ns)())
     return out
 
 
